@@ -4,9 +4,17 @@ pub struct VxOpaque { _p: () }
 // Error: only the shape the Include arm looks at (`e.kind` is a RenderingError or something else)
 #[verifier::external_body]
 pub struct ReportError { _p: () }
+/// a note of a report: its label, the template it names, the span it points at (by instruction index, see span_tag)
+pub struct NoteV { pub label: Seq<char>, pub name: Seq<char>, pub at: (u32, usize) }
 impl ReportError {
+    /// the notes of the report, in the order they were added
+    pub uninterp spec fn notes(&self) -> Seq<NoteV>;
+    /// everything of the report but its notes
+    pub uninterp spec fn core(&self) -> VxOpaque;
     #[verifier::external_body]
-    pub fn add_note(&mut self, label: &str, name: &str, source: &str, span: &Span) { unimplemented!() }
+    pub fn add_note(&mut self, label: &str, name: &str, source: &str, span: &Span)
+        ensures final(self).notes() == old(self).notes().push(NoteV { label: label@, name: name@, at: span_tag(span) }), final(self).core() == old(self).core()
+    { unimplemented!() }
 }
 pub enum ErrorKind { RenderingError(Box<ReportError>), InvalidArgument { vx: VxOpaque }, VxOtherKinds(VxOpaque) }
 pub struct Error { pub kind: ErrorKind, pub vx_opaque: VxOpaque }
@@ -29,8 +37,12 @@ pub struct Chunk { _p: () }
 /// which span of which instruction a `&Span` obtained from the chunk is
 pub uninterp spec fn span_tag(s: &Span) -> (u32, usize);
 impl Chunk {
+    /// the instruction has a span of its own (unit spans: get_span is the FIRST recorded span)
+    pub uninterp spec fn has_span(&self, idx: u32) -> bool;
     #[verifier::external_body]
-    pub fn get_span(&self, idx: u32) -> Option<&Span> { unimplemented!() }
+    pub fn get_span(&self, idx: u32) -> (r: Option<&Span>)
+        ensures r is Some == self.has_span(idx), r is Some ==> span_tag(r->Some_0) == (idx, 0usize)
+    { unimplemented!() }
     #[verifier::external_body]
     pub fn get_span_at(&self, idx: u32, span_idx: usize) -> (r: Option<&Span>)
         ensures r is Some ==> span_tag(r->Some_0) == (idx, span_idx)
@@ -184,3 +196,22 @@ impl From<String> for Value {
     #[verifier::external_body]
     fn from(v: String) -> Value { unimplemented!() }
 }
+/// `Vec::first_mut` / `Vec::last_mut` (std) on the capture stack: a mutable reference to that element; what is
+/// written through it is what the vector holds afterwards
+#[verifier::external_body]
+pub fn vx_writers_first_mut(v: &mut Vec<VxWriter>) -> (r: Option<&mut VxWriter>)
+    ensures
+        old(v)@.len() > 0 ==> r is Some && *r->Some_0 == old(v)@[0] && final(v)@ == old(v)@.update(0, *final(r->Some_0)),
+        old(v)@.len() == 0 ==> r is None && final(v)@ == old(v)@,
+{ unimplemented!() }
+#[verifier::external_body]
+pub fn vx_writers_last_mut(v: &mut Vec<VxWriter>) -> (r: Option<&mut VxWriter>)
+    ensures
+        old(v)@.len() > 0 ==> r is Some && *r->Some_0 == old(v)@.last() && final(v)@ == old(v)@.update(old(v)@.len() - 1, *final(r->Some_0)),
+        old(v)@.len() == 0 ==> r is None && final(v)@ == old(v)@,
+{ unimplemented!() }
+/// `std::mem::take(w)` through a mutable reference to a writer: returns it, leaves an empty one
+#[verifier::external_body]
+pub fn vx_take_writer_ref(w: &mut VxWriter) -> (r: VxWriter)
+    ensures r == *old(w), final(w).bytes@ == Seq::<u8>::empty()
+{ unimplemented!() }
